@@ -8,7 +8,7 @@
    step ([a_other]) and therefore universally quantified in the theorems.
    Definitions only; lemmas in Proofs/C15.v. *)
 From Coq Require Import List NArith Bool String.
-From GQ Require Import Lib.C15_Row Lib.C15_Wire Generated.C15JumpTable.
+From GQ Require Import Lib.C15_Row Lib.C15_Wire Lib.C15_Window Generated.C15JumpTable.
 Import ListNotations.
 Local Open Scope N_scope.
 
@@ -191,10 +191,13 @@ Inductive case :=
          (c_post : mstate)
 (* (A) one call of the real coinbase parsers: input bytes; observed
    ExtractScriptSigFromCoinbaseTx (None = nil) and ExtractSealHashFromCoinbase of it (None = error) *)
-| mkWire (w_id : N) (w_tx : list N) (w_sig w_seal : option (list N)).
+| mkWire (w_id : N) (w_tx : list N) (w_sig w_seal : option (list N))
+(* one RETURNDATACOPY of the interpreter totality sweep (Lib/C15_Window.v win_ok): memOffset, dataOffset, length,
+   len(returnData); observed 0 = copied, 1 = ErrReturnDataOutOfBounds, 2 = refused by the charge phase *)
+| mkWin (n_id n_mem n_off n_len n_ret n_obs : N).
 
 Definition case_id (c : case) : N :=
-  match c with mkCase i _ _ _ _ _ _ => i | mkWire i _ _ _ => i end.
+  match c with mkCase i _ _ _ _ _ _ => i | mkWire i _ _ _ => i | mkWin i _ _ _ _ _ => i end.
 
 Definition verdict_code (v : verdict) : N :=
   match v with VOk => 0 | VInvalid => 1 | VUnderflow => 2 | VStackOverflow => 3 | VOutOfGas => 4 | VGasOverflow => 5 end.
@@ -218,6 +221,7 @@ Definition case_ok (c : case) : bool :=
     end
   | mkWire _ tx osig oseal =>
     opt_bytes_eqb (extract_script_sig tx) osig && opt_bytes_eqb (wire_seal tx) oseal
+  | mkWin _ m o l rl obs => win_ok m o l rl obs
   end.
 
 Definition mismatches (cs : list case) : list N :=
